@@ -4533,7 +4533,15 @@ impl<'a> Assignment<'a> {
                             ))
                         })?,
                         ArgType::String => DataValue::String(value.to_string()),
-                        _ => unreachable!("argtype should not occur"),
+                        _ => {
+                            return Err(StamError::QuerySyntaxError(
+                                format!(
+                                    "Value '{}' of type {:?} is not supported in an assignment",
+                                    value, valuetype
+                                ),
+                                "",
+                            ))
+                        }
                     }
                 };
                 Self::Data { set, key, value }
